@@ -110,7 +110,10 @@ def export(tl, mode):
 
 def sym_val(e):
     def val(name, lo, hi):
-        return e.real(name, lo, hi)
+        memo = e.pm.setdefault("inputs_by_name", {})
+        if name not in memo:
+            memo[name] = e.real(name, lo, hi)
+        return memo[name]
 
     return val
 
@@ -210,3 +213,97 @@ def c11(sink, cfg, val, sym):
         pos = [nd.getRoot().idealPos for nd in tl.nodes]
         sink.check("degenerate-domain-puts-dots-at-the-axis-start", all((p == 0) is True for p in pos), info=str(pos))
     return tl, doc
+
+
+# ------------------------------------------------------------------------------------ C10
+def tl_spec(tag, **kw):
+    d = mk_cfg(tag, **kw)
+    d["tag"] = tag
+    return d
+
+
+def c10_configs(tier):
+    A_time = tl_spec("A", scale="time-derived", n=2, ctimes=["2020-01-01T00:00:00", "2020-03-01T12:00:00"], optvar="empty")
+    B_time = tl_spec("B", scale="time-derived", n=2, ctimes=["1990-01-01T00:00:00", "1999-03-01T00:00:00"], optvar="partial", direction="up")
+    C_time = tl_spec("C", scale="time-derived", n=3, ctimes=["2021-06-15T00:00:00.001", "2021-06-15T00:00:00.004", "2021-06-15T00:00:00.002"], optvar="none", mode="tex")
+    A_lin = tl_spec("A", scale="linear-explicit", n=2, optvar="partial", direction="down")
+    B_lin = tl_spec("B", scale="linear-explicit", n=2, optvar="partial", direction="left", mode="tex")
+    # crowded timeline whose layer 0 holds neighbouring stubs (line spacing matters) and one that sets its own lineSpacing
+    Q = tl_spec("Q", scale="linear-derived", n=5, ctimes=[50.0, 50.5, 51.0, 51.5, 49.5], optvar="partial", labella={"maxPos": 150, "algorithm": "overlap"}, direction="down", fixedw=[60, 60, 60, 60, 60])
+    P = tl_spec("P", scale="linear-derived", n=5, ctimes=[10.0, 10.5, 11.0, 11.5, 12.0], optvar="partial", labella={"maxPos": 150, "lineSpacing": 9, "nodeSpacing": 5}, direction="down", fixedw=[60, 60, 60, 60, 60], mode="tex")
+    D_time = tl_spec("D", scale="time-derived", n=2, ctimes=["1990-01-01T00:00:00", "1999-03-01T00:00:00"], optvar="none")
+    pairs = [("time", [A_time, B_time]), ("time2", [B_time, C_time]), ("time3", [A_time, D_time]), ("time4", [D_time, C_time]), ("lin", [A_lin, B_lin]), ("mixed", [A_lin, A_time]), ("crowd", [P, Q])]
+    hists2 = [["c0", "c1", "e0", "e1"], ["c0", "c1", "e1", "e0"], ["c0", "e0", "c1", "e0", "e1"], ["c0", "c1", "e0", "e0", "e1", "e1"], ["c1", "e1", "c0", "e0", "e1"]]
+    out = []
+    for pn, tls in pairs:
+        for hi, h in enumerate(hists2):
+            out.append(dict(name="c10-%s-h%d" % (pn, hi), kind="c10", tls=tls, hist=h, weight=3))
+    if tier != "quick":
+        tl3 = [A_time, B_time, C_time]
+        for hi, h in enumerate([["c0", "c1", "c2", "e0", "e1", "e2"], ["c0", "e0", "c1", "c2", "e2", "e0", "e1"], ["c2", "c1", "c0", "e0", "e1", "e2", "e0"]]):
+            out.append(dict(name="c10-three-h%d" % hi, kind="c10", tls=tl3, hist=h, weight=5))
+        tl3 = [A_lin, Q, P]
+        for hi, h in enumerate([["c0", "c1", "c2", "e2", "e1", "e0"], ["c2", "e2", "c1", "c0", "e1", "e0"]]):
+            out.append(dict(name="c10-three-b-h%d" % hi, kind="c10", tls=tl3, hist=h, weight=5))
+    return out
+
+
+def _vals_for(spec, val):
+    """each timeline draws its own named inputs: prefix by tag"""
+    def v(name, lo, hi):
+        if spec.get("fixedw") and name.startswith("w"):
+            return float(spec["fixedw"][int(name[1:])])
+        return val("%s_%s" % (spec["tag"], name), lo, hi)
+
+    return v
+
+
+def c10(sink, cfg, val, sym):
+    from vlib import instr
+
+    e = sink.e if sym else None
+    tls = cfg["tls"]
+    norm = (lambda t: norm_doc(e, t)) if sym else (lambda t: t)
+    instr.fresh_import()
+    objs = {}
+    docs = {}
+    for op in cfg["hist"]:
+        k = int(op[1:])
+        if op[0] == "c":
+            objs[k] = build(tls[k], _vals_for(tls[k], val), sym)[0]
+        else:
+            docs.setdefault(k, []).append(export(objs[k], tls[k]["mode"]))
+    for k, lst in docs.items():
+        instr.fresh_import()
+        ref = export(build(tls[k], _vals_for(tls[k], val), sym)[0], tls[k]["mode"])
+        for j, dct in enumerate(lst):
+            same = norm(dct) == norm(ref)
+            info = "timeline %s export #%d in history %s" % (tls[k]["tag"], j, " ".join(cfg["hist"]))
+            if not same and sym:
+                same = holes_equal(e, dct, ref)
+            if not same and not sym:
+                info += " | first difference: %s" % first_diff(dct, ref)
+            sink.check("export-equals-the-same-timeline-alone-in-a-fresh-process", same, info=info)
+    instr.fresh_import()
+
+
+def first_diff(a, b):
+    for i, (x, y) in enumerate(zip(a, b)):
+        if x != y:
+            return "...%s| vs |%s..." % (a[max(0, i - 40) : i + 40].replace("\n", " "), b[max(0, i - 40) : i + 40].replace("\n", " "))
+    return "lengths %d vs %d" % (len(a), len(b))
+
+
+def holes_equal(e, a, b):
+    """same skeleton and pairwise equal hole terms (same conversion)"""
+    sa, sb = HOLE.split(a), HOLE.split(b)
+    if sa != sb:
+        return False
+    ha, hb = HOLE.findall(a), HOLE.findall(b)
+    conj = []
+    for x, y in zip(ha, hb):
+        (tx, cx), (ty, cy) = e.holes[x], e.holes[y]
+        if cx != cy:
+            return False
+        conj.append(tx == ty)
+    return And(*conj)
